@@ -24,7 +24,7 @@ META = {
                 "wishbone.bus.Decoder.elaborate", "wishbone.bus.Interface.memory_map (setter)",
                 "memory.MemoryMap.add_window", "memory.MemoryMap.window_patterns"],
     "also": 'as C06 plus feature sets given as wishbone.Feature members; address widths 12/20/30; a single window filling the whole address space (dense and sparse); a subordinate whose memory map object is also a window of a second decoder; a refused add() of a second interface carrying the memory map of an accepted subordinate',
-    "bounds": "decoder addr width 2-6 (thorough 2-8), data width 8-64, granularity <= data width, seeded feature "
+    "bounds": "decoder addr width 2-6 (thorough 2-8) plus 1, 12, 20, 30, 58, 61, 62 bit decoders and one with 11 subordinates, data width 8-64, granularity <= data width, seeded feature "
               "subsets on decoder and subordinates, 0-3 (thorough 0-4) windows: dense between equal data width and "
               "granularity, or sparse; implicit / explicit aligned / align_to placement, alignment 0-3, named/anonymous",
     "outside": "dense windows onto a finer-granularity subordinate (excluded by the property itself); interfaces "
